@@ -127,6 +127,14 @@ func (e *Env) enterLoop(fr *Frame, st *State, b, prev *ssa.BasicBlock, l *loop) 
 		st.assume(g)
 	}
 	e.autoRangeInvariant(fr, st, b, l)
+	if ct != nil {
+		if fk := ct.ForKeys[l.ordinal]; fk != nil {
+			e.applyForKey(fr, st, ct, fk)
+			if e.err != nil {
+				return nil
+			}
+		}
+	}
 	return e.runFrom(fr, st, b, 0, prev)
 }
 
@@ -426,5 +434,58 @@ func (e *Env) autoRangeInvariant(fr *Frame, st *State, b *ssa.BasicBlock, l *loo
 			st.assume(tApp("bvslt", pv.T, e.term(st, lenv)))
 			st.assume(tApp("bvsge", e.term(st, lenv), bvLit(0, 64)))
 		}
+	}
+}
+
+// applyForKey positions the store iterator of the frame on an arbitrary key of the given family.
+func (e *Env) applyForKey(fr *Frame, st *State, ct *Contract, fk *ForKey) {
+	vars := e.localVars(st, fr)
+	cx := &cenv{e: e, pre: e.oldState, post: st, vars: vars, ct: ct, file: ct.File}
+	if fr.loopVars == nil {
+		fr.loopVars = map[string]Val{}
+	}
+	for _, v := range fk.Vars {
+		t := cx.resolveTypeText(v[1])
+		if t == nil {
+			e.fail("forkey: unknown type %s", v[1])
+			return
+		}
+		val := e.symbolic(st, t, "fk_"+v[0])
+		vars[v[0]] = val
+		fr.loopVars[v[0]] = val
+	}
+	if fk.Requires != nil {
+		st.assume(cx.evalBool(fk.Requires))
+	}
+	key := cx.eval(fk.Expr)
+	if e.err != nil {
+		return
+	}
+	segs := e.byteSegs(st, key)
+	n := 0
+	for k, v := range fr.regs {
+		if v.K != kIter || v.Iter == nil || v.Iter.Store == nil {
+			continue
+		}
+		n++
+		nit := *v.Iter
+		rel := segs
+		if len(nit.Store.Prefix) > 0 {
+			if pl, ok := segsConstLen(nit.Store.Prefix); ok {
+				if sub, ok2 := segsSuffix(segs, pl); ok2 {
+					rel = sub
+				}
+			}
+		}
+		nit.Key = e.segsTerm(rel)
+		nit.KeySegs = rel
+		nit.Valid = "true"
+		m := e.readComp(st, nit.Store.World, nit.Store.Comp)
+		nit.Val = fmt.Sprintf("(select %s %s)", m, e.segsTerm(segs))
+		st.assume(tNot(tEq(nit.Val, "nilStr")))
+		fr.regs[k] = Val{K: kIter, Typ: v.Typ, Iter: &nit}
+	}
+	if n != 1 {
+		e.fail("forkey: expected exactly one store iterator in %s, found %d", fr.fn.Name(), n)
 	}
 }
